@@ -63,96 +63,92 @@ Proof. intros. now apply (kw_test_some _ C18_kw_protocol_good). Qed.
 Print Assumptions C18_require_kwargs_test_fails_on_positional_calls.
 
 (* ---- transparency, one decorator ------------------------------------------------------------------------------ *)
-(* Full statement (FALSE on the current source, open known findings C18-K13 and C18-K14; see the _refuted theorems
-   below):  for every twin behaviour g, all arguments, all states:  same_as g (use_wrapped d cx).
-   The wrappers build their messages with f-strings that evaluate repr(args), repr(kwargs), repr(result) and
-   func.__name__ / func.__qualname__ BEFORE anything is printed, so
-     - a value whose __repr__ raises, prints, or is itself a traced method makes trace / trace_if_returns /
-       does_same_as_function fail or recurse (K13);
-     - a callable without __name__ / __qualname__ (functools.partial, a callable object) makes every wrapper that
-       names the function raise AttributeError (K14).
-   Proved under exactly these guards, each only where the wrapper really evaluates the thing:
-     repr_harmless cx  : producing the text of any value succeeds and has no effect (so it is not a wrapped method);
-     c_named f = true  : the decorated callable has __name__ / __qualname__.                                       *)
+(* Full statement (FALSE on the current source, open known finding C18-K13; see the _refuted theorems below):
+     for every twin behaviour g, all arguments, all states:  same_as g (use_wrapped d cx).
+   trace, trace_if_returns and does_same_as_function build their messages with f-strings that evaluate repr(args),
+   repr(kwargs), repr(result) BEFORE anything is printed, so a value whose __repr__ raises (or prints, or is itself
+   a decorated method) makes the decorated call fail.  Proved under the guard, only where the wrapper really formats
+   a value:
+     repr_harmless cx : producing the text of any value succeeds and has no effect (so it is not a wrapped method).
+   The name of the function is no guard any more: since the fix ff26652 the messages read
+   getattr(func, "__name__", repr(func)), so functools.partial objects and callable objects are covered
+   (former finding C18-K14; the translator compiles that read into the total item FOwn).                            *)
 Section Transparent.
   Variable Sigma : Type.
   Variable cx : ctx Sigma.
   Variable g : base Sigma.
   Hypothesis Hused : awaited_if_coro (cx_callee cx CFunc) = true.
   Hypothesis Htwin : behaves_as g (cx_callee cx CFunc).
-  Hypothesis Hname : c_named (cx_callee cx CFunc) = true.
 
   Theorem C18_transparent_trace_partial : repr_harmless cx -> same_as g (use_wrapped d_trace cx).
-  Proof. intros Hr. apply behaves_use. exact (meets_trace Sigma cx g Hused Htwin Hr Hname). Qed.
+  Proof. intros Hr. apply behaves_use. apply meets_trace; assumption. Qed.
 
-  (* timer, count_calls and deprecated only name the function *)
-  Theorem C18_transparent_timer_partial : same_as g (use_wrapped d_timer cx).
-  Proof. apply behaves_use. exact (meets_timer Sigma cx g Hused Htwin Hname). Qed.
+  (* timer, count_calls and deprecated format nothing of the caller's: no guard at all, any callable *)
+  Theorem C18_transparent_timer : same_as g (use_wrapped d_timer cx).
+  Proof. apply behaves_use. apply meets_timer; assumption. Qed.
 
-  Theorem C18_transparent_count_calls_partial : same_as g (use_wrapped d_count_calls cx).
-  Proof. apply behaves_use. exact (meets_count_calls Sigma cx g Hused Htwin Hname). Qed.
+  Theorem C18_transparent_count_calls : same_as g (use_wrapped d_count_calls cx).
+  Proof. apply behaves_use. apply meets_count_calls; assumption. Qed.
 
-  Theorem C18_transparent_deprecated_partial :
+  Theorem C18_transparent_deprecated :
     cx_warn_prog cx = raise_warning_prog -> same_as g (use_wrapped d_deprecated cx).
   Proof.
-    intros H. apply behaves_use. apply (meets_deprecated Sigma cx g Hused Htwin Hname). rewrite H. exact C18_warn_prog_never_raises.
+    intros H. apply behaves_use. apply meets_deprecated; try assumption. rewrite H. exact C18_warn_prog_never_raises.
   Qed.
 
   (* whatever `==` answers *)
   Theorem C18_transparent_trace_if_returns_partial : repr_harmless cx -> same_as g (use_wrapped d_trace_if_returns cx).
-  Proof. intros Hr. apply behaves_use. exact (meets_trace_if_returns Sigma cx g Hused Htwin Hr Hname). Qed.
+  Proof. intros Hr. apply behaves_use. apply meets_trace_if_returns; assumption. Qed.
 
   (* every keyword call, when the wrapper's test is the regenerated one applied to what require_kwargs sees of the
-     function (shape s) and the function was decorated with the @ syntax *)
+     function (shape s) and the function was decorated with the @ syntax.  require_kwargs is defined on function
+     objects only (DecoratedFunction: "should be a method or function"): c_named *)
   Theorem C18_transparent_require_kwargs_keyword_call : forall s a k,
+    c_named (cx_callee cx CFunc) = true ->
     (forall a k, cx_assert_kw cx a k = kw_test_of Gen.Pedantic.pedantic_cfg s a k) ->
     ks_rk_text s = true -> keyword_call s a ->
     same_as_at g (use_wrapped d_require_kwargs cx) a k.
   Proof.
-    intros s a k Hcx Ht Hk st. destruct (behaves_use _ _ _ (meets_require_kwargs Sigma cx g Hused Htwin Hname g) a k st) as [w E].
+    intros s a k Hname Hcx Ht Hk st.
+    assert (Hm : behaves_as (spec_apply NRequireKwargs cx g g) (as_callee d_require_kwargs cx)) by (apply meets_require_kwargs; assumption).
+    destruct (behaves_use _ _ _ Hm a k st) as [w E].
     cbn [spec_apply] in E. rewrite Hcx, (C18_require_kwargs_test_passes_on_keyword_calls s a k Ht Hk) in E. eauto.
   Qed.
 
   (* both functions agree (the other one is a plain function that leaves the world alone) *)
   Theorem C18_transparent_does_same_as_function_agreeing : forall go a k,
-    repr_harmless cx -> c_named (cx_callee cx COther) = true ->
+    repr_harmless cx ->
     plain_function (cx_callee cx CFunc) = true -> sync_function (cx_callee cx COther) = true ->
     behaves_as go (cx_callee cx COther) ->
     (forall c v c1, g a k c = (ROk v, c1) -> exists v', go a k c1 = (ROk v', c1) /\ cx_vne cx v' v = false) ->
     same_as_at g (use_wrapped d_does_same_as_function cx) a k.
   Proof.
-    intros go a k Hr Hno Hp Hs Ho Hagree s.
-    destruct (behaves_use _ _ _ (meets_does_same Sigma cx g Hused Htwin Hr Hname go Hno Hp Hs Ho) a k s) as [w E].
+    intros go a k Hr Hp Hs Ho Hagree s.
+    assert (Hm : behaves_as (spec_apply NDoesSame cx go g) (as_callee d_does_same_as_function cx)) by (apply meets_does_same; assumption).
+    destruct (behaves_use _ _ _ Hm a k s) as [w E].
     cbn [spec_apply] in E. unfold spec_does_same in E.
     destruct (g a k (cs s)) as [r c1] eqn:Eg. destruct r; cbn in *; eauto.
     destruct (Hagree _ _ _ Eg) as (v' & E1 & E2). rewrite E1, E2 in E. cbn in E. eauto.
   Qed.
-End Transparent.
-
-(* overrides hands the function back; rename_kwargs formats nothing and names nothing: no guard at all *)
-Section TransparentUnguarded.
-  Variable Sigma : Type.
-  Variable cx : ctx Sigma.
-  Variable g : base Sigma.
-  Hypothesis Hused : awaited_if_coro (cx_callee cx CFunc) = true.
-  Hypothesis Htwin : behaves_as g (cx_callee cx CFunc).
 
   Theorem C18_transparent_overrides : same_as g (use_wrapped d_overrides cx).
-  Proof. apply behaves_use. exact (meets_overrides Sigma cx g Htwin). Qed.
+  Proof. apply behaves_use. apply meets_overrides; assumption. Qed.
 
   (* every call none of whose keywords is listed in a Rename rule *)
   Theorem C18_transparent_rename_kwargs_unlisted : forall a k,
     no_listed_key (cx_rename cx) k = true -> keys_distinct k = true ->
     same_as_at g (use_wrapped d_rename_kwargs cx) a k.
   Proof.
-    intros a k H1 H2 s. destruct (behaves_use _ _ _ (meets_rename_kwargs Sigma cx g Hused Htwin g) a k s) as [w E].
+    intros a k H1 H2 s.
+    assert (Hm : behaves_as (spec_apply NRenameKwargs cx g g) (as_callee d_rename_kwargs cx)) by (apply meets_rename_kwargs; assumption).
+    destruct (behaves_use _ _ _ Hm a k s) as [w E].
     cbn [spec_apply] in E. rewrite spec_renamed_unlisted, dict_of_pairs_distinct in E by assumption. eauto.
   Qed.
-End TransparentUnguarded.
+End Transparent.
 Print Assumptions C18_transparent_trace_partial.
-Print Assumptions C18_transparent_timer_partial.
-Print Assumptions C18_transparent_count_calls_partial.
-Print Assumptions C18_transparent_deprecated_partial.
+Print Assumptions C18_transparent_timer.
+Print Assumptions C18_transparent_count_calls.
+Print Assumptions C18_transparent_deprecated.
 Print Assumptions C18_transparent_trace_if_returns_partial.
 Print Assumptions C18_transparent_overrides.
 Print Assumptions C18_transparent_require_kwargs_keyword_call.
@@ -257,16 +253,15 @@ Theorem C18_coroutine_awaited_to_same_result : forall Sigma n (cx : ctx Sigma) g
   c_iscoro (cx_callee cx CFunc) = true -> c_mode (cx_callee cx CFunc) = true ->
   cx_warn_prog cx = raise_warning_prog ->
   behaves_as g (cx_callee cx CFunc) ->
-  repr_harmless cx -> c_named (cx_callee cx CFunc) = true ->
+  repr_harmless cx ->
   same_as g (use_wrapped (deco_of n) cx) /\
   c_iscoro (as_callee (deco_of n) cx) = keeps_coroutine n.
 Proof.
-  intros Sigma n cx g Hn Hi Hm Hp Hsim Hrepr Hname. pose (go := g).
+  intros Sigma n cx g Hn Hi Hm Hp Hsim Hrepr. pose (go := g).
   assert (Hwu : awaited_if_coro (cx_callee cx CFunc) = true) by (unfold awaited_if_coro; now rewrite Hi, Hm).
   split.
   - assert (Hs : level_side n cx go).
-    { split; [exact Hrepr | split; [exact Hname|]].
-      cbn in Hn. repeat (destruct Hn as [Hn|Hn]; [subst n; cbn; try exact I; rewrite Hp; exact C18_warn_prog_never_raises|]).
+    { cbn in Hn. repeat (destruct Hn as [Hn|Hn]; [subst n; cbn; try exact I; try exact Hrepr; rewrite Hp; exact C18_warn_prog_never_raises|]).
       contradiction. }
     pose proof (behaves_use _ _ _ (level_meets_spec Sigma n cx go g Hwu Hsim Hs)) as H.
     cbn in Hn. repeat (destruct Hn as [Hn|Hn]; [subst n; exact H|]). contradiction.
@@ -306,15 +301,8 @@ Proof. exact mock_never_calls. Qed.
 Print Assumptions C18_mock_never_calls.
 
 Theorem C18_unimplemented_never_calls : forall Sigma (cx : ctx Sigma) a k s,
-  snd (use_wrapped d_unimplemented cx a k s) = s /\
-  (c_named (cx_callee cx CFunc) = true ->
-   fst (use_wrapped d_unimplemented cx a k s) = RExc NotImplementedExceptionC (XFresh 4)).
-Proof.
-  intros Sigma cx a k s. split.
-  - unfold use_wrapped, use_callee, as_callee. cbn. unfold run_body. cbn. unfold after_fmt, fmt_item. cbn.
-    destruct (c_named (cx_callee cx CFunc)); destruct (c_mode (cx_callee cx CFunc)); reflexivity.
-  - intros Hn. now rewrite unimplemented_never_calls.
-Qed.
+  use_wrapped d_unimplemented cx a k s = (RExc NotImplementedExceptionC (XFresh 4), s).
+Proof. exact unimplemented_never_calls. Qed.
 Print Assumptions C18_unimplemented_never_calls.
 
 (* rename_kwargs: the callee is run once on the same positional arguments and on exactly the renamed keywords *)
@@ -346,7 +334,7 @@ Print Assumptions C18_overrides_iff.
 (* does_same_as_function: both run once on the same arguments; AssertionError iff the two results differ *)
 Theorem C18_does_same_iff_differ : forall Sigma (cx : ctx Sigma) g go a k s v c1 v2 c2,
   awaited_if_coro (cx_callee cx CFunc) = true -> behaves_as g (cx_callee cx CFunc) ->
-  repr_harmless cx -> c_named (cx_callee cx CFunc) = true -> c_named (cx_callee cx COther) = true ->
+  repr_harmless cx ->
   plain_function (cx_callee cx CFunc) = true -> sync_function (cx_callee cx COther) = true ->
   behaves_as go (cx_callee cx COther) ->
   g a k (cs s) = (ROk v, c1) -> go a k c1 = (ROk v2, c2) ->
@@ -355,8 +343,9 @@ Theorem C18_does_same_iff_differ : forall Sigma (cx : ctx Sigma) g go a k s v c1
   (fst out = RExc AssertionErrorC (XFresh 4) <-> cx_vne cx v2 v = true) /\
   (fst out = ROk v <-> cx_vne cx v2 v = false).
 Proof.
-  intros Sigma cx g go a k s v c1 v2 c2 Hwu Hsim Hr Hn Hno Hp Hs Ho Eg Ego out.
-  destruct (behaves_use _ _ _ (meets_does_same Sigma cx g Hwu Hsim Hr Hn go Hno Hp Hs Ho) a k s) as [w E].
+  intros Sigma cx g go a k s v c1 v2 c2 Hwu Hsim Hr Hp Hs Ho Eg Ego out.
+  assert (Hm : behaves_as (spec_apply NDoesSame cx go g) (as_callee d_does_same_as_function cx)) by (apply meets_does_same; assumption).
+  destruct (behaves_use _ _ _ Hm a k s) as [w E].
   subst out. unfold use_wrapped. rewrite E. cbn [spec_apply]. unfold spec_does_same. rewrite Eg, Ego.
   destruct (cx_vne cx v2 v); cbn; repeat split; intros; try reflexivity; try discriminate.
 Qed.
@@ -368,20 +357,20 @@ Theorem C18_does_same_async : forall Sigma (cx : ctx Sigma) g go,
   c_iscoro (cx_callee cx COther) = true -> c_mode (cx_callee cx COther) = true ->
   (forall a k s v, fst (c_call (cx_callee cx COther) a k s) = ROk v -> exists a' k', v = VPending COther a' k') ->
   behaves_as g (cx_callee cx CFunc) -> behaves_as go (cx_callee cx COther) ->
-  repr_harmless cx -> c_named (cx_callee cx CFunc) = true -> c_named (cx_callee cx COther) = true ->
+  repr_harmless cx ->
   same_as (spec_does_same (cx_vne cx) g go) (use_wrapped d_does_same_as_function cx).
 Proof.
-  intros Sigma cx g go Hi Hm Hio Hmo Htok Hsim Ho Hr Hn Hno.
+  intros Sigma cx g go Hi Hm Hio Hmo Htok Hsim Ho Hr.
   assert (Hwu : awaited_if_coro (cx_callee cx CFunc) = true) by (unfold awaited_if_coro; now rewrite Hi, Hm).
   apply behaves_use.
-  exact (meets_does_same_async Sigma cx g Hwu Hsim Hr Hn go Hno Hi Hio Hmo (call_awaited_other Sigma cx go Ho Hmo Htok)).
+  apply meets_does_same_async; try assumption. exact (call_awaited_other Sigma cx go Ho Hmo Htok).
 Qed.
 Print Assumptions C18_does_same_async.
 
 (* deprecated: exactly one DeprecationWarning per call, whatever the warning filter was before the call, for every
    callee behaviour and every history *)
 Theorem C18_deprecated_one_warning : forall Sigma (cx : ctx Sigma) calls s,
-  cx_warn_prog cx = raise_warning_prog -> c_named (cx_callee cx CFunc) = true ->
+  cx_warn_prog cx = raise_warning_prog ->
   (forall c a k s, n_deprecation (ws_log (ws (snd (c_call (cx_callee cx c) a k s)))) = n_deprecation (ws_log (ws s))) ->
   (forall c a k s, n_deprecation (ws_log (ws (snd (c_resume (cx_callee cx c) a k s)))) = n_deprecation (ws_log (ws s))) ->
   n_deprecation (ws_log (ws (run_calls (use_wrapped d_deprecated cx) calls s)))
@@ -395,12 +384,12 @@ Print Assumptions C18_deprecated_one_warning.
      same_as calling it on the undecorated class.
    Proved for every (m, acc) with class_access_ok m acc = true, i.e. everything except a static method reached
    through an instance and a class method reached through an instance or through a subclass - and, as for trace
-   itself, when repr is harmless: a class that defines its own __repr__ gets it traced too, and then printing
-   `self` recurses (C18_trace_class_own_repr_refuted). *)
+   itself, when repr is harmless.  (A class's own __repr__ / __str__ is no longer traced, fix 80ba436: see
+   C18_trace_class_leaves_repr_alone.) *)
 Theorem C18_class_methods_partial : forall Sigma n (cx : ctx Sigma) fn g m acc self cls0 sub a o,
   (n = NTrace \/ n = NTimer) ->
   awaited_if_coro fn = true -> behaves_as g fn ->
-  repr_harmless cx -> c_named fn = true ->
+  repr_harmless cx ->
   class_access_ok m acc = true -> orig_args m acc self cls0 sub a = Some o ->
   forall k, same_as_at (fun _ k c => g o k c) (class_call forall_cfg n cx fn m acc self cls0 sub) a k.
 Proof. exact class_call_transparent. Qed.
@@ -529,9 +518,17 @@ Theorem C18_trace_result_repr_raises_refuted :
 Proof. exists (ex_cx_repr (bad_repr 100 ValueErrorC) (ex_fn 1)), [VObj 7]. vm_compute. repeat split; reflexivity. Qed.
 Print Assumptions C18_trace_result_repr_raises_refuted.
 
-(* @trace_class on a class that defines __repr__: the traced __repr__ formats its own `self`, i.e. calls itself.
-   `budget` is the interpreter's recursion limit; for EVERY budget the outcome is RecursionError, nothing is printed
-   and no body (neither __repr__ nor the method) ever runs *)
+(* trace_class leaves a class's own __repr__ / __str__ alone (fix 80ba436; former finding C18-K13a): the shortcut
+   passes both names in `skip`, and for_all_methods does not touch a skipped attribute (the translator refuses any
+   other shape of the loop) *)
+Theorem C18_trace_class_leaves_repr_alone :
+  exists names, In ("trace_class"%string, names) class_skips /\ In "__repr__"%string names /\ In "__str__"%string names.
+Proof. eexists. split; [vm_compute; auto 10|]. split; vm_compute; auto. Qed.
+Print Assumptions C18_trace_class_leaves_repr_alone.
+
+(* why that matters: IF __repr__ were traced, the traced __repr__ would format its own `self`, i.e. call itself.
+   `budget` is the interpreter's recursion limit; for EVERY budget the outcome is RecursionError, nothing is printed and
+   no body (neither __repr__ nor the method) ever runs *)
 Fixpoint traced_repr (budget : nat) : val -> st jst -> res * st jst :=
   match budget with
   | O => fun _ s => (RExc RecursionErrorC (XFresh 8), s)
@@ -545,7 +542,7 @@ Proof.
   unfold run_body. cbn. unfold after_fmt, fmt_item. cbn. rewrite IH. reflexivity.
 Qed.
 
-Theorem C18_trace_class_own_repr_refuted : forall budget self s,
+Example C18_example_a_traced_repr_would_recurse : forall budget self s,
   use_wrapped d_trace (ex_cx_repr (traced_repr budget) (ex_fn 1)) [self] [] s = (RExc RecursionErrorC (XFresh 8), s) /\
   fst (use_callee (ex_fn 1) [self] [] ex_s0) = ROk (VObj 100).
 Proof.
@@ -553,28 +550,29 @@ Proof.
   unfold use_wrapped, use_callee, as_callee. cbn.
   unfold run_body. cbn. unfold after_fmt, fmt_item. cbn. rewrite traced_repr_recurses. reflexivity.
 Qed.
-Print Assumptions C18_trace_class_own_repr_refuted.
 
-(* a callable without __name__ / __qualname__ (functools.partial(f), an instance with __call__): AttributeError (K14).
-   trace, count_calls and deprecated fail before the body runs, timer after it (the result is lost) *)
+(* a callable without __name__ / __qualname__ (functools.partial(f), an instance with __call__): since fix ff26652 every
+   wrapper that only MENTIONS the function in a message works on it (former finding C18-K14).  Two decorators are, by
+   their own definition, about named function objects and stay outside: require_kwargs builds a DecoratedFunction, which
+   accepts functions and methods only ("should be a method or function" - its own error message then needs
+   __qualname__: AttributeError); overrides asks whether the base class has an attribute of the function's NAME *)
 Definition nameless (f : cdesc jst) : cdesc jst :=
   {| c_named := false; c_iscoro := c_iscoro f; c_mode := c_mode f; c_call := c_call f; c_resume := c_resume f |}.
 
-Theorem C18_nameless_callable_refuted :
+Example C18_example_nameless_callables :
   let p := nameless (ex_fn 1) in let cx := ex_cx p in let a := [VObj 1] in
   fst (use_callee p a [] ex_s0) = ROk (VObj 100) /\
-  use_wrapped d_trace cx a [] ex_s0 = (RExc AttributeErrorC (XFresh 7), ex_s0) /\
-  fst (use_wrapped d_count_calls cx a [] ex_s0) = RExc AttributeErrorC (XFresh 7) /\
-  use_wrapped d_deprecated cx a [] ex_s0 = (RExc AttributeErrorC (XFresh 7), ex_s0) /\
-  fst (use_wrapped d_unimplemented cx a [] ex_s0) = RExc AttributeErrorC (XFresh 7) /\
+  fst (use_wrapped d_trace cx a [] ex_s0) = ROk (VObj 100) /\
+  fst (use_wrapped d_timer cx a [] ex_s0) = ROk (VObj 100) /\
+  fst (use_wrapped d_count_calls cx a [] ex_s0) = ROk (VObj 100) /\
+  fst (use_wrapped d_deprecated cx a [] ex_s0) = ROk (VObj 100) /\
+  fst (use_wrapped d_trace_if_returns cx a [] ex_s0) = ROk (VObj 100) /\
+  fst (use_wrapped d_unimplemented cx a [] ex_s0) = RExc NotImplementedExceptionC (XFresh 4) /\
+  fst (use_wrapped d_mock cx a [] ex_s0) = ROk VNone /\ fst (use_wrapped d_rename_kwargs cx a [] ex_s0) = ROk (VObj 100) /\
+  (* outside the domain of the two *)
   fst (use_wrapped d_require_kwargs cx [] [] ex_s0) = RExc AttributeErrorC (XFresh 7) /\
-  (fst (use_wrapped d_timer cx a [] ex_s0) = RExc AttributeErrorC (XFresh 7) /\
-   cs (snd (use_wrapped d_timer cx a [] ex_s0)) = [CallRec CFunc a []]) /\
-  run_pre (d_pre d_overrides) true false (fun _ => true) = PreRaise AttributeErrorC /\
-  (* mock and rename_kwargs do not name the function *)
-  fst (use_wrapped d_mock cx a [] ex_s0) = ROk VNone /\ fst (use_wrapped d_rename_kwargs cx a [] ex_s0) = ROk (VObj 100).
+  run_pre (d_pre d_overrides) true false (fun _ => true) = PreRaise AttributeErrorC.
 Proof. vm_compute. repeat split; reflexivity. Qed.
-Print Assumptions C18_nameless_callable_refuted.
 
 (* ---- non-vacuity ------------------------------------------------------------------------------------------------------- *)
 (* the hypotheses of the theorems above are satisfiable (by a def and by an async def), and the wrappers really run
